@@ -102,6 +102,10 @@ class AsyncHTTP2Connection(AsyncConnectionInterface):
         self._read_exception: Exception | None = None
         self._write_exception: Exception | None = None
 
+        # Requests that have claimed the connection, but that have
+        # not opened their stream yet.
+        self._requests_in_setup = 0
+
     async def handle_async_request(self, request: Request) -> Response:
         if not self.can_handle_request(request.url.origin):
             # This cannot occur in normal operation, since the connection pool
@@ -118,6 +122,7 @@ class AsyncHTTP2Connection(AsyncConnectionInterface):
                 self._request_count += 1
                 self._expire_at = None
                 self._state = HTTPConnectionState.ACTIVE
+                self._requests_in_setup += 1
             else:
                 raise ConnectionNotAvailable()
 
@@ -128,6 +133,7 @@ class AsyncHTTP2Connection(AsyncConnectionInterface):
                     async with Trace("send_connection_init", logger, request, kwargs):
                         await self._send_connection_init(**kwargs)
                 except BaseException as exc:
+                    self._requests_in_setup -= 1
                     with AsyncShieldCancellation():
                         await self.aclose()
                     raise exc
@@ -151,9 +157,11 @@ class AsyncHTTP2Connection(AsyncConnectionInterface):
         try:
             stream_id = self._h2_state.get_next_available_stream_id()
             self._events[stream_id] = []
+            self._requests_in_setup -= 1
         except h2.exceptions.NoAvailableStreamIDError:  # pragma: nocover
             self._used_all_stream_ids = True
             self._request_count -= 1
+            self._requests_in_setup -= 1
             raise ConnectionNotAvailable()
 
         try:
@@ -447,7 +455,12 @@ class AsyncHTTP2Connection(AsyncConnectionInterface):
             if self._connection_terminated and not self._events:
                 await self.aclose()
 
-            elif self._state == HTTPConnectionState.ACTIVE and not self._events:
+            elif (
+                self._state == HTTPConnectionState.ACTIVE
+                and not self._events
+                and not self._requests_in_setup
+            ):
+                # Only idle once no other request is about to open a stream.
                 self._state = HTTPConnectionState.IDLE
                 if self._keepalive_expiry is not None:
                     now = time.monotonic()
